@@ -334,11 +334,71 @@ def in_small_scope(case, level):
     return all(-2 <= lo and hi <= 3 for lo, hi in case["box"])
 
 
+FUZZ_RUNS = {"quick": 6000, "thorough": 150000}
+
+
 def jobs(prop, tier):
     return [
         {"name": "exh", "mode": "I", "shards": 16},
         {"name": "rand", "mode": "I", "shards": 16},
+        {"name": "fuzz", "mode": "I", "shards": 2 if tier == "quick" else 8},
     ]
+
+
+def run_fuzz(prop, shard, seed, tier):
+    """Coverage-guided campaign (atheris/libFuzzer over the Hypothesis strategies); see fuzz/box_fuzz.py."""
+    import json
+    import os
+    import shutil
+    import subprocess
+    import sys
+
+    from vlib.run import Recorder
+
+    rec = Recorder()
+    here = os.path.dirname(os.path.dirname(os.path.dirname(os.path.abspath(__file__))))
+    if not os.path.isdir(os.path.join(here, ".deps", "atheris")):
+        rec.tag("fuzz:atheris-not-installed")
+        return rec.result()
+    base = (os.environ.get("VERIF_JOURNAL") or "/tmp/boxfuzz-%d" % os.getpid()) + ".fuzz"
+    corpus = base + ".corpus"
+    shutil.rmtree(corpus, ignore_errors=True)
+    os.makedirs(corpus)
+    if shard % 2 == 1:
+        # second kind of starting corpus: a few small valid inputs (the empty corpus is the other kind)
+        for i, blob in enumerate([b"\x00" * 8, b"\x01\x02\x03\x04" * 4, bytes(range(32))]):
+            open(os.path.join(corpus, "seed%d" % i), "wb").write(blob)
+    state = base + ".json"
+    env = {k: v for k, v in os.environ.items() if k != "VERIF_JOURNAL"}
+    cmd = [sys.executable, os.path.join(here, "fuzz", "box_fuzz.py"), prop, state, "-runs=%d" % FUZZ_RUNS[tier], "-seed=%d" % (seed * 131 + shard + 1), "-max_len=768", "-artifact_prefix=" + base + ".crash-", corpus]
+    r = subprocess.run(cmd, capture_output=True, text=True, env=env, cwd=here)
+    try:
+        st_ = json.load(open(state))
+    except (OSError, ValueError):
+        raise RuntimeError("fuzz target produced no state: " + r.stderr[-1500:])
+    rec.evaluations = st_["evaluations"]
+    rec.nontrivial = set(st_["nontrivial"])
+    rec.samples = st_["samples"]
+    rec.hist = st_["hist"]
+    cov = [l for l in r.stderr.splitlines() if " cov: " in l]
+    if cov:
+        import re
+
+        m = re.search(r"cov: (\d+) ft: (\d+)", cov[-1])
+        if m:
+            rec.tag("fuzz:coverage-edges", int(m.group(1)))
+            rec.tag("fuzz:features", int(m.group(2)))
+    if st_["failure"]:
+        rec.failures.append(st_["failure"])
+    shutil.rmtree(corpus, ignore_errors=True)
+    for f in (state,):
+        if os.path.exists(f):
+            os.remove(f)
+    import glob
+
+    for f in glob.glob(base + ".crash-*"):
+        os.remove(f)
+    return rec.result()
 
 
 def run(prop, job, shard, nshards, seed, tier):
@@ -376,6 +436,8 @@ def run(prop, job, shard, nshards, seed, tier):
         for f in res["failures"]:
             f.pop("_key", None)
         return res
+    if job["name"] == "fuzz":
+        return run_fuzz(prop, shard, seed, tier)
     if job["name"] == "rand":
         strat = strategy(prop, tier)
 
